@@ -5,6 +5,8 @@ Property theorems only; lemmas live in Neutrino/Lemmas.
 import Neutrino.Spec.Dispatcher
 import Neutrino.Lemmas.Dispatcher
 import Neutrino.Lemmas.DispatcherJobs
+import Neutrino.Lemmas.Worker
+import Neutrino.Gen.Worker
 import Neutrino.Gen.Dispatcher
 namespace Neutrino.Disp
 
@@ -242,3 +244,87 @@ example :
     (step s (.accept 1)).2 = [.ignored] ∧ (step s (.accept 2)).2 = [.dispatched 2 0 1 2] := by decide
 
 end Neutrino.Disp
+
+/-! ## The worker loop (query/worker.go `Run`) -/
+namespace Neutrino.Wrk
+open Neutrino.Disp (Err)
+
+/-- The arms of the four selects of `worker.Run` as regenerated from the source
+on this run, and what the model derives from them: both pre-check cancel arms
+`break` out of the select into the wait loop (they neither `continue` nor
+`return`), the default arm sends the request, every wait arm that holds a job
+leaves the loop with `break Loop` and the error it stands for, `quit` returns,
+the hand-off select sends or returns on quit, and `Run` returns after an
+`ErrPeerDisconnected` result. -/
+theorem C12_worker_source_facts :
+    Arms.ofSource = Arms.good ∧
+    Gen.Worker.idleArms = [("w.nextJob", "", "fall"), ("msgChan", "", "continue"),
+      ("peer.OnDisconnect()", "", "return"), ("quit", "", "return")] ∧
+    Gen.Worker.precheckArms = [("job.cancelChan", "", "break"), ("job.internalCancelChan", "", "break"),
+      ("default", "", "fall")] ∧
+    Gen.Worker.waitArms = [("msgChan", "", "break Loop"), ("timeout.C", "ErrQueryTimeout", "break Loop"),
+      ("peer.OnDisconnect()", "ErrPeerDisconnected", "break Loop"), ("job.cancelChan", "ErrJobCanceled", "break Loop"),
+      ("job.internalCancelChan", "ErrJobCanceled", "break Loop"), ("quit", "", "return")] ∧
+    Gen.Worker.reportArms = [("results<-", "", "fall"), ("quit", "", "return")] ∧
+    Gen.Worker.waitQuitReturns = true ∧ Gen.Worker.reportSendsOrQuits = true := by decide
+
+/-- **Every accepted job yields exactly one result, unless the worker quits** —
+for every event list (any interleaving of jobs handed out with either cancel
+channel already closed or not, messages that finish / progress / do nothing,
+job timeouts, peer disconnects, external and internal cancellation, the
+dispatcher taking results, quit), with the arms as they are in the source:
+the results the dispatcher received are, in order, exactly the jobs the worker
+accepted, except for the job currently in hand and at most one job that was in
+hand when `quit` was seen; no job is ever abandoned.  So the dispatcher's
+`activeJob` for this worker is cleared for every job it handed out (each
+`reported` entry is one `jobResult`), which is what `C12_reissue` and the
+dispatch phase rely on. -/
+theorem C12_worker_reports (es : List Ev) :
+    let s := run Arms.ofSource init es
+    s.dropped = [] ∧
+    s.accepted = s.reported.map (·.1) ++ inflight s ++ s.lost ∧
+    (s.lost ≠ [] → s.phase = .exited true) ∧ s.lost.length ≤ 1 := by
+  intro s
+  have h : WInv s := by
+    show WInv (run Arms.ofSource init es)
+    rw [C12_worker_source_facts.1]; exact winv_run init es winv_init
+  exact ⟨h.nodrop, h.acct, h.lostq, h.lost1⟩
+
+/-- **A held job can always be reported**: from any state in which the worker
+waits on a job, the job timer firing and the dispatcher taking the result
+yield that job's result; from the hand-off state the dispatcher taking it
+does.  (The timer is armed for every job, `time.NewTimer(job.timeout)`; that it
+eventually fires is the fairness assumption.) -/
+theorem C12_worker_progress (s : State) (j : Nat) :
+    (∀ sent, s.phase = .waiting j sent →
+      (run Arms.ofSource s [.timeout, .deliver]).reported = s.reported ++ [(j, .timeout)]) ∧
+    (∀ e, s.phase = .reporting j e →
+      (run Arms.ofSource s [.deliver]).reported = s.reported ++ [(j, e)]) := by
+  rw [C12_worker_source_facts.1]
+  obtain ⟨phase, acc, rep, snt, lost, drp⟩ := s
+  constructor
+  · intro sent hp
+    simp only at hp; subst hp
+    simp [run, step, leave, Arms.good]
+  · intro e hp
+    simp only at hp; subst hp
+    simp [run, step, Arms.good]
+
+/-- What the statement rules out: were the pre-check arm on the internal cancel
+channel to `continue` instead of breaking into the wait loop, a job handed out
+after its batch ended would be accepted and never reported — the worker is back
+in `idle`, the dispatcher keeps it marked busy for ever. -/
+theorem C12_worker_reports_counterexample_if_precheck_continues :
+    let s := run { Arms.good with preInt := false } init [.job 7 .int, .timeout, .deliver]
+    s.accepted = [7] ∧ s.reported = [] ∧ s.phase = .idle ∧ s.dropped = [7] := by decide
+
+/-! Non-vacuity -/
+example :
+    (run Arms.ofSource init [.job 1 .none, .msg .progressed, .msg .finished, .deliver, .job 2 .int, .cancelInt,
+      .deliver, .job 3 .none, .disconnect, .deliver]).reported =
+      [(1, .ok), (2, .canceled), (3, .disconnected)] := by decide
+example :
+    let s := run Arms.ofSource init [.job 1 .ext, .cancelExt, .deliver, .job 2 .none, .quit]
+    s.accepted = [1, 2] ∧ s.reported = [(1, .canceled)] ∧ s.lost = [2] ∧ s.phase = .exited true := by decide
+
+end Neutrino.Wrk
